@@ -345,11 +345,11 @@ int sqfs_dir_reader_resolve_path(sqfs_dir_reader_t *rd, const char *path,
 				return SQFS_ERROR_NO_ENTRY;
 
 			len = ent->size + 1;
-			ret = strncmp((const char *)ent->name, path, len);
+			ret = (len == strcspn(path, "/")) ?
+				memcmp(ent->name, path, len) : 1;
 			sqfs_free(ent);
 
-			if (ret == 0 &&
-			    (path[len] == '/' || path[len] == '\0')) {
+			if (ret == 0) {
 				path += len;
 				break;
 			}
